@@ -3,8 +3,10 @@
 package actor
 
 import (
+	"context"
 	"errors"
 
+	"github.com/tochemey/goakt/v4/internal/commands"
 	"github.com/tochemey/goakt/v4/log"
 	"github.com/tochemey/goakt/v4/reentrancy"
 )
@@ -12,6 +14,8 @@ import (
 func init() {
 	vRegister("vC16_completeVsCancel", vC16_completeVsCancel)
 	vRegister("vC16_sequential", vC16_sequential)
+	vRegister("vC16_mixedModes", vC16_mixedModes)
+	vRegister("vC16_retune", vC16_retune)
 }
 
 var vC16_callbacks [2]int
@@ -87,5 +91,282 @@ func vC16_sequential() {
 	}
 	pid.cancelInFlightRequests(vC16_errCancel)
 	vAssert(re.inFlightCount.Load() == 0 && re.requestStates.Len() == 0, "cancelling everything returns the counters to zero")
+	vCover("end")
+}
+
+// ---------------------------------------------------------------------------------------------------------------------
+// Turn-level scenarios: one requesting actor with its real mailbox, stash and turn loop. Messages, replies and
+// cancellations arrive through doReceive; the actor is run by runTurn -> dispatchOne -> enableReentrancyStash / stash /
+// handleAsyncResponse / handleReceived. The actor's Receive is the script interpreter below; it issues requests through
+// ReceiveContext.Request (real PID.request) and retunes the policy through ReceiveContext.Enable/DisableReentrancy.
+// Substituted (checks/c16.py): PID.Tell (records the correlation id of the outgoing AsyncRequest, may fail),
+// dispatcher.schedule / worker.reschedule (no-ops: the harness runs the turns), PID.submitSupervision (counter).
+
+type vC16Msg struct{ op, id, mode, max int }
+
+const (
+	vC16User    = iota // ordinary user message number id
+	vC16Req            // issue request id (mode: per-call override, -1 = none)
+	vC16Req2           // issue requests 0 and 1 in the same Receive (overrides mode, max)
+	vC16Disable        // DisableReentrancy
+	vC16Enable         // EnableReentrancy(mode, max)
+)
+
+var (
+	vC16_target     *PID
+	vC16_errSend    = errors.New("send failed")
+	vC16_tellFail   [2]bool            // the outgoing Tell of request i fails
+	vC16_corr       [2]string          // correlation id seen by the (substituted) Tell
+	vC16_calls      [2]RequestCall     // handle of an admitted request
+	vC16_reqMode    [2]reentrancy.Mode // reference model: mode request i was admitted with (Off = not admitted)
+	vC16_done       [2]int             // how often the continuation of request i ran
+	vC16_gMode      reentrancy.Mode    // reference model of the actor's policy
+	vC16_gMax       int
+	vC16_inTurn     bool
+	vC16_handled    [2]int
+	vC16_order      [2]int
+	vC16_nHandled   int
+	vC16_supervised int
+)
+
+func vC16_tell(pid *PID, ctx context.Context, to *PID, message any) error {
+	req, ok := message.(*commands.AsyncRequest)
+	vAssert(ok && to == vC16_target && req.CorrelationID != "", "a request is sent to its target as an AsyncRequest carrying a correlation id")
+	i := req.Message.(int)
+	if vC16_tellFail[i] {
+		return vC16_errSend
+	}
+	vC16_corr[i] = req.CorrelationID
+	return nil
+}
+func vC16_noSchedule(d *dispatcher, s schedulable)               {}
+func vC16_noReschedule(w *worker, s schedulable)                 {}
+func vC16_supervision(pid *PID, signal *supervisionSignal)       { vC16_supervised++ }
+
+// reference model: admitted requests whose continuation has not run yet
+func vC16_outstanding(blockingOnly bool) int {
+	n := 0
+	for i := 0; i < 2; i++ {
+		if vC16_reqMode[i] != reentrancy.Off && vC16_done[i] == 0 && (!blockingOnly || vC16_reqMode[i] == reentrancy.StashNonReentrant) {
+			n++
+		}
+	}
+	return n
+}
+
+func vC16_request(rctx *ReceiveContext, i, override int) {
+	eff := vC16_gMode
+	inFlight := vC16_outstanding(false)
+	var call RequestCall
+	if override >= 0 {
+		eff = reentrancy.Mode(override)
+		call = rctx.Request(vC16_target, i, WithReentrancyMode(eff))
+	} else {
+		call = rctx.Request(vC16_target, i)
+	}
+	allowed := eff != reentrancy.Off && (vC16_gMax == 0 || inFlight < vC16_gMax)
+	if call == nil {
+		vAssert(!allowed || vC16_tellFail[i], "a request is rejected only when requests are off, the in-flight limit is reached or the send failed")
+		vCover("request-rejected")
+		return
+	}
+	vAssert(eff != reentrancy.Off, "no request is admitted while the policy (or the per-call override) is Off")
+	vAssert(vC16_gMax == 0 || inFlight < vC16_gMax, "the in-flight limit is never exceeded")
+	vAssert(!vC16_tellFail[i], "a request whose send failed is not reported as started")
+	vC16_reqMode[i] = eff
+	vC16_calls[i] = call
+	call.Then(func(any, error) {
+		vAssert(vC16_inTurn, "a continuation runs on the requesting actor's turn")
+		vC16_done[i]++
+	})
+}
+
+// the requesting actor's Receive
+func vC16_receive(rctx *ReceiveContext) {
+	vAssert(vC16_outstanding(true) == 0, "no ordinary message is handled while a blocking request is outstanding")
+	m := rctx.Message().(*vC16Msg)
+	switch m.op {
+	case vC16User:
+		vC16_handled[m.id]++
+		if vC16_nHandled < 2 {
+			vC16_order[vC16_nHandled] = m.id
+		}
+		vC16_nHandled++
+	case vC16Req:
+		vC16_request(rctx, m.id, m.mode)
+	case vC16Req2:
+		vC16_request(rctx, 0, m.mode)
+		vC16_request(rctx, 1, m.max)
+	case vC16Disable:
+		rctx.DisableReentrancy()
+		vC16_gMode = reentrancy.Off
+	case vC16Enable:
+		err := rctx.EnableReentrancy(reentrancy.New(reentrancy.WithMode(reentrancy.Mode(m.mode)), reentrancy.WithMaxInFlight(m.max)))
+		vAssert(err == nil, "a valid policy is accepted")
+		vC16_gMode, vC16_gMax = reentrancy.Mode(m.mode), m.max
+	}
+}
+
+func vC16_newActor() (*PID, *worker) {
+	mode := reentrancy.Mode(vNondetInt("policyMode"))
+	max := vNondetInt("policyMax")
+	vAssume(mode == reentrancy.AllowAll || mode == reentrancy.StashNonReentrant)
+	vAssume(max >= 0 && max <= 2)
+	vC16_tellFail = [2]bool{vNondetBool("sendFails0"), vNondetBool("sendFails1")}
+	pid := &PID{mailbox: NewUnboundedMailbox(), systemMailbox: NewUnboundedMailbox(), dispatcher: &dispatcher{throughput: 3}, logger: log.DiscardLogger}
+	bs := newBehaviorStack()
+	bs.Push(vC16_receive)
+	pid.behaviorStack = bs
+	pid.setState(runningState, true)
+	pid.reentrancy.Store(newReentrancyState(mode, max)) // as pid_option.go withReentrancy does at spawn
+	vC16_target = &PID{logger: log.DiscardLogger}
+	vC16_target.setState(runningState, true)
+	vC16_corr, vC16_calls, vC16_reqMode, vC16_done = [2]string{}, [2]RequestCall{}, [2]reentrancy.Mode{}, [2]int{}
+	vC16_gMode, vC16_gMax = mode, max
+	vC16_handled, vC16_order, vC16_nHandled, vC16_supervised, vC16_inTurn = [2]int{}, [2]int{}, 0, 0, false
+	return pid, &worker{dispatcher: pid.dispatcher}
+}
+
+// the dispatcher runs the actor until its mailbox is drained (two turns of throughput 3 are enough for every script below:
+// asserted at the end); afterwards the real counters agree with the reference model
+func vC16_drain(pid *PID, w *worker) {
+	vC16_inTurn = true
+	pid.runTurn(w)
+	pid.runTurn(w)
+	vC16_inTurn = false
+	re := pid.reentrancy.Load()
+	vAssert(int(re.inFlightCount.Load()) == vC16_outstanding(false), "the in-flight counter equals the number of outstanding requests")
+	vAssert(int(re.blockingCount.Load()) == vC16_outstanding(true), "the blocking counter equals the number of outstanding blocking requests")
+	vAssert(re.requestStates.Len() == vC16_outstanding(false), "exactly the outstanding requests are tracked")
+}
+
+func vC16_send(pid *PID, w *worker, m *vC16Msg) {
+	pid.doReceive(&ReceiveContext{message: m, self: pid, ctx: context.Background()})
+	vC16_drain(pid, w)
+}
+
+// the outcome of request i arrives: a reply, an error reply, or the requester's own RequestCall.Cancel (which travels
+// through the mailbox as an error reply)
+func vC16_complete(pid *PID, w *worker, i int, errReply, cancel bool) {
+	if vC16_calls[i] == nil {
+		return
+	}
+	if cancel {
+		vAssert(vC16_calls[i].Cancel() == nil, "cancelling a pending request succeeds")
+		vCover("cancelled")
+	} else {
+		resp := &commands.AsyncResponse{CorrelationID: vC16_corr[i]}
+		if errReply {
+			resp.Error = "boom"
+		} else {
+			resp.Message = 42
+		}
+		pid.doReceive(&ReceiveContext{message: resp, self: pid, sender: vC16_target, ctx: context.Background()})
+	}
+	vC16_drain(pid, w)
+	vAssert(vC16_done[i] == 1, "the continuation of a request has run exactly once when its outcome was processed")
+}
+
+func vC16_finish(pid *PID, nUser int) {
+	re := pid.reentrancy.Load()
+	vAssert(pid.mailbox.IsEmpty() && pid.schedState.Load() == dispatchIdle, "harness: the actor is quiescent")
+	for i := 0; i < 2; i++ {
+		if vC16_reqMode[i] != reentrancy.Off {
+			vAssert(vC16_done[i] == 1, "every admitted request completes exactly once")
+		} else {
+			vAssert(vC16_done[i] == 0, "a rejected request has no continuation run")
+		}
+	}
+	vAssert(re.inFlightCount.Load() == 0 && re.blockingCount.Load() == 0, "the in-flight counters return to zero")
+	vAssert(re.requestStates.Len() == 0, "no request state is left behind")
+	vAssert(pid.stashState == nil || pid.stashState.box.IsEmpty(), "no message stays held once no blocking request is outstanding")
+	for k := 0; k < nUser; k++ {
+		vAssert(vC16_handled[k] == 1, "every accepted message is handled exactly once after the blocking requests completed")
+	}
+	if nUser == 2 {
+		vAssert(vC16_order[0] == 0 && vC16_order[1] == 1, "held messages are handled in arrival order")
+	}
+	vAssert(vC16_supervised == 0 || vC16_calls[0] == nil || vC16_calls[1] == nil, "only a rejected request reports an error to the supervisor")
+}
+
+// arrival orders of {user message 0, user message 1, outcome of request 0, outcome of request 1} with message 0 before 1
+var vC16_orders = [12][4]int{
+	{0, 1, 2, 3}, {0, 1, 3, 2}, {0, 2, 1, 3}, {0, 3, 1, 2}, {0, 2, 3, 1}, {0, 3, 2, 1},
+	{2, 0, 1, 3}, {3, 0, 1, 2}, {2, 0, 3, 1}, {3, 0, 2, 1}, {2, 3, 0, 1}, {3, 2, 0, 1},
+}
+
+// one Receive issues two requests with independent per-call modes (default policy, AllowAll or StashNonReentrant); then two
+// user messages and the two outcomes arrive in the order selected by the case, the mailbox being drained after every arrival
+func vC16_mixedModes() {
+	order := vC16_orders[vCase("order")]
+	ov0, ov1 := vNondetInt("override0"), vNondetInt("override1")
+	vAssume(ov0 >= -1 && ov0 <= 2 && ov1 >= -1 && ov1 <= 2)
+	err0, err1 := vNondetBool("errorReply0"), vNondetBool("errorReply1")
+	cancel1 := vNondetBool("cancel1")
+	pid, w := vC16_newActor()
+	vC16_send(pid, w, &vC16Msg{op: vC16Req2, mode: ov0, max: ov1})
+	for k := 0; k < 4; k++ {
+		switch e := order[k]; e {
+		case 0, 1:
+			vC16_send(pid, w, &vC16Msg{op: vC16User, id: e})
+		case 2:
+			vC16_complete(pid, w, 0, err0, false)
+		case 3:
+			vC16_complete(pid, w, 1, err1, cancel1)
+		}
+	}
+	vC16_finish(pid, 2)
+	if vC16_reqMode[0] == reentrancy.AllowAll && vC16_reqMode[1] == reentrancy.StashNonReentrant {
+		vCover("allowAll-then-blocking")
+	}
+	if vC16_reqMode[0] == reentrancy.StashNonReentrant && vC16_reqMode[1] == reentrancy.AllowAll {
+		vCover("blocking-then-allowAll")
+	}
+	if vC16_reqMode[0] == reentrancy.StashNonReentrant && vC16_reqMode[1] == reentrancy.StashNonReentrant {
+		vCover("both-blocking")
+	}
+	vCover("end")
+}
+
+// request 0 is issued; then the policy is switched off and/or retuned at runtime (case "toggle": 0 nothing, 1 Disable,
+// 2 Disable then Enable, 3 Enable); then request 1 is attempted, a user message arrives, and the outcomes arrive
+// (case "first": which one first)
+func vC16_retune() {
+	toggle, first := vCase("toggle"), vCase("first")
+	ov0, ov1 := vNondetInt("override0"), vNondetInt("override1")
+	vAssume(ov0 >= -1 && ov0 <= 2 && ov1 >= -1 && ov1 <= 2)
+	mode2, max2 := vNondetInt("newMode"), vNondetInt("newMax")
+	vAssume(mode2 >= 0 && mode2 <= 2 && max2 >= 0 && max2 <= 2)
+	err0, err1 := vNondetBool("errorReply0"), vNondetBool("errorReply1")
+	cancel0 := vNondetBool("cancel0")
+	pid, w := vC16_newActor()
+	vC16_send(pid, w, &vC16Msg{op: vC16Req, id: 0, mode: ov0})
+	if toggle == 1 || toggle == 2 {
+		vC16_send(pid, w, &vC16Msg{op: vC16Disable})
+	}
+	if toggle == 2 || toggle == 3 {
+		vC16_send(pid, w, &vC16Msg{op: vC16Enable, mode: mode2, max: max2})
+	}
+	vC16_send(pid, w, &vC16Msg{op: vC16Req, id: 1, mode: ov1})
+	vC16_send(pid, w, &vC16Msg{op: vC16User, id: 0})
+	if first == 0 {
+		vC16_complete(pid, w, 0, err0, cancel0)
+		vC16_complete(pid, w, 1, err1, false)
+	} else {
+		vC16_complete(pid, w, 1, err1, false)
+		vC16_complete(pid, w, 0, err0, cancel0)
+	}
+	// a request that was issued late (its Receive was held behind a blocking request 0) gets its reply now
+	if vC16_calls[1] != nil && vC16_done[1] == 0 {
+		vCover("second-request-was-held")
+		vC16_complete(pid, w, 1, err1, false)
+	}
+	vC16_finish(pid, 1)
+	if vC16_calls[0] != nil && vC16_calls[1] != nil {
+		vCover("both-admitted")
+	}
+	if vC16_calls[0] != nil && vC16_calls[1] == nil {
+		vCover("second-rejected")
+	}
 	vCover("end")
 }
